@@ -185,7 +185,7 @@ func c03Check(out *vlib.Out, c *c03Case, run *c34Run, cn c34Canon, hung bool) {
 }
 
 func c03Run(out *vlib.Out, w *c34World, c *c03Case, limit time.Duration) {
-	var remote net.Addr = c03Remote
+	var remote net.Addr = c34Peer(40404)
 	geo := c.geo
 	if geo == "nonip" {
 		remote, geo = c03PipeAddr{}, "ok"
@@ -527,11 +527,14 @@ func (g *c03Gen) wrongPlace(thorough bool) {
 		fl := g.flight(reg, -2)
 		others := []string{c34PhNone, c34PhInvalid, c34PhV6}
 		if reg.phantom == c34PhMany {
-			others = append(others, c34PhOne(((ci/2)+1)%(len(g.clients)/2)))
+			others = append(others, c34PhOne(((ci/2)+1)%((len(g.clients)-3)/2)))
 		} else {
-			others = append(others, c34PhOne(((ci/2)+3)%(len(g.clients)/2)))
+			others = append(others, c34PhOne(((ci/2)+3)%((len(g.clients)-3)/2)))
 		}
 		for _, ph := range others {
+			if ph == reg.phantom {
+				continue // its own phantom (clients on the IPv6 phantom)
+			}
 			g.probe("genuine-flight-wrong-phantom:"+reg.tname(), ph, append(append([]byte(nil), fl...), r.Bytes(r.Intn(40))...))
 		}
 		// truncated genuine flights: every proper prefix (min, prefix), sampled (obfs4)
